@@ -6,3 +6,5 @@ import Woodpile.Model.Stream
 import Woodpile.Proofs.StreamBytes
 import Woodpile.Proofs.Stream
 import Woodpile.Props.C08
+import Woodpile.Proofs.StreamReader
+import Woodpile.Props.C06
